@@ -388,6 +388,15 @@ func run[K comparable](r *engine.Rec, c *cfg[K]) {
 		for _, p := range path[1:] {
 			e := model(p, m)
 			_, o := apply(p, cat)
+			rt.Protect(fuel, func() { // observe after every replayed step (populates anything the catalog caches)
+				cat.AsArray()
+				cat.GetKeys()
+				cat.GetSize()
+				it := cat.GetIterator()
+				for it.HasNext() {
+					it.GetNext()
+				}
+			})
 			if o.Panicked {
 				continue
 			}
